@@ -297,12 +297,20 @@ Fixpoint colsf_end (rem : nat) (i : Z) (s : list Z) : option (list Z) :=
   | S r => match (if sel i then cs_end s else csk_end s) with Some s' => colsf_end r (i + 1) s' | None => None end
   end.
 
+(* ... and the status of the first column that cannot be read or skipped *)
+Fixpoint colsf_st (rem : nat) (i : Z) (s : list Z) : Z :=
+  match rem with
+  | O => SBDF_OK
+  | S r => if sel i then (if cs_st s =? SBDF_OK then match cs_end s with Some s' => colsf_st r (i + 1) s' | None => cs_st s end else cs_st s)
+           else match cs_skip false s with Ok (_, s') => colsf_st r (i + 1) s' | Err e => e end
+  end.
+
 Lemma ts_loop_bs : forall rem i hs blocks a1 k s m,
   Z.of_nat rem = n - i -> 0 <= i -> zlen hs = i -> cols_sem m (S (S L)) hs blocks -> Forall byte s -> colsf_nobit rem i s -> flags_in m ->
   (exists hs' blocks' a1' k' s' m',
      bsE prog_env ts_loop (lts i 0 a1 (hs ++ zeros (Z.to_nat (cap - i))) blocks k s m) (ONormal (lts n 0 a1' (hs' ++ zeros (Z.to_nat (cap - n))) blocks' k' s' m')) /\
-     prefix_of m m' /\ zlen hs' = n /\ cols_sem m' (S (S L)) hs' blocks' /\ colsf_end rem i s = Some s')
-  \/ (exists st i' a1' k' s' m' j, st < 0 /\ prefix_of m m' /\
+     prefix_of m m' /\ zlen hs' = n /\ cols_sem m' (S (S L)) hs' blocks' /\ colsf_end rem i s = Some s' /\ (k < 0 -> k' = k /\ colsf_st rem i s = SBDF_OK))
+  \/ (exists st i' a1' k' s' m' j, st < 0 /\ prefix_of m m' /\ (k < 0 -> st = colsf_st rem i s) /\
         bsE prog_env ts_loop (lts i 0 a1 (hs ++ zeros (Z.to_nat (cap - i))) blocks k s m)
           (OReturn (VInt st) (trf (Build_trl (VInt n) (VInt st) (VInt i') (VCell L 0) (VInt 3) a1' (VInt cap) so) k' s' (h ++ nones j) m'))).
 Proof.
@@ -320,7 +328,7 @@ Proof.
       [destruct (nth (Z.to_nat i) fl 0 =? 0) eqn:E0; reflexivity|replace (nth (Z.to_nat i) fl 0 - 256 =? 0) with false by lia; replace (nth (Z.to_nat i) fl 0 =? 0) with false by lia; reflexivity]. }
   induction rem as [|rem IH]; intros i hs blocks a1 k s m Hrem Hi Hhs C Hs NBC Fl.
   - left. assert (Ei : i = n) by lia. rewrite Ei in *. clear Ei.
-    exists hs, blocks, a1, k, s, m. split; [|split; [exists []; now rewrite app_nil_r|split; [exact Hhs|split; [exact C|reflexivity]]]].
+    exists hs, blocks, a1, k, s, m. split; [|split; [exists []; now rewrite app_nil_r|split; [exact Hhs|split; [exact C|split; [reflexivity|intros _; split; reflexivity]]]]].
     unfold ts_loop. cbn [fbody prog_sbdf_ts_read]. eapply bsE_while_f; [apply COND|rewrite Z.ltb_irrefl; reflexivity].
   - assert (Hin : i < n) by lia.
     assert (Hz : Z.to_nat (cap - i) = S (Z.to_nat (cap - (i + 1)))) by lia. rewrite Hz.
@@ -330,7 +338,7 @@ Proof.
     assert (Hn1 : n1 = (a + b)%nat) by (unfold n1, a, b; lia).
     assert (Zs : forall x y, zeros (x + y) = zeros x ++ zeros y) by (intros; unfold zeros; apply repeat_app).
     assert (ZN : forall x, Forall (fun c => as_ptr c = VNull) (zeros x)) by (intros x; unfold zeros; apply Forall_forall; intros c Hc; apply repeat_spec in Hc; subst c; reflexivity).
-    cbn [colsf_nobit colsf_end] in NBC |- *.
+    cbn [colsf_nobit colsf_end colsf_st] in NBC |- *.
     destruct (sel i) eqn:Esel.
     + (* the column is read *)
       destruct NBC as ((NB1 & NBP1) & NBC).
@@ -360,6 +368,7 @@ Proof.
         replace (hs ++ (VNull :: zeros a) ++ zeros b) with (hs ++ VNull :: zeros n1) in D by (cbn [app]; rewrite <- Zs, Hn1; reflexivity).
         fold tsl in D. unfold fr in D. cbn [app] in D.
         exists st1, i, VNull, k1, s1, m1, (2 + List.length blocks + j)%nat. split; [exact Hneg1|]. split; [exists x1; exact Hm1|].
+        split; [intros Hk0; destruct (CST1 Hk0) as (Q1 & _); rewrite <- Q1; replace (st1 =? SBDF_OK) with false by (unfold SBDF_OK; lia); reflexivity|].
         replace (h ++ nones (2 + List.length blocks + j)) with (h ++ None :: None :: nones (List.length blocks) ++ nones j) by (rewrite nones_app; reflexivity).
         unfold ts_loop. cbn [fbody prog_sbdf_ts_read].
         eapply bsE_while_ret; [apply COND|replace (i <? n) with true by lia; reflexivity|].
@@ -374,14 +383,16 @@ Proof.
       set (hb := VCell (S (S L) + List.length blocks) 0) in *.
       assert (C1 : cols_sem m1 (S (S L)) (hs ++ [hb]) (blocks ++ hnew)) by (apply cols_snoc; [apply (cols_mono m m1 Hmm1); exact C|exact Hnn|exact CS]).
       destruct (IH (i + 1) (hs ++ [hb]) (blocks ++ hnew) hb k1 s1 m1 ltac:(lia) ltac:(lia) ltac:(rewrite zlen_app; change (zlen [hb]) with 1; lia) C1 Hs1 NBC Fl1)
-        as [(hs' & blocks' & a1' & k' & s' & m' & BL & (x3 & Hm') & R1 & R2 & R3)|(st & i' & a1' & k' & s' & m' & j & Hneg & (x3 & Hm') & BL)].
-      * left. exists hs', blocks', a1', k', s', m'. split; [|split; [exists (x1 ++ x3); rewrite Hm', Hm1, app_assoc; reflexivity|split; [exact R1|split; [exact R2|exact R3]]]].
+        as [(hs' & blocks' & a1' & k' & s' & m' & BL & (x3 & Hm') & R1 & R2 & R3 & R4)|(st & i' & a1' & k' & s' & m' & j & Hneg & (x3 & Hm') & RS & BL)].
+      * left. exists hs', blocks', a1', k', s', m'. split; [|split; [exists (x1 ++ x3); rewrite Hm', Hm1, app_assoc; reflexivity|split; [exact R1|split; [exact R2|split; [exact R3|]]]]].
+        2: { intros Hk0. destruct (CST1 Hk0) as (Q1 & Q2). rewrite <- Q1. change (SBDF_OK =? SBDF_OK) with true. cbv iota. specialize (Q2 eq_refl). rewrite Q2 in R4. destruct (R4 Hk0) as (R5 & R6). split; [exact R5|exact R6]. }
         rewrite <- app_assoc in BL. cbn [app] in BL. fold n1 in BL.
         unfold ts_loop in *. cbn [fbody prog_sbdf_ts_read] in *.
         eapply bsE_while_t; [apply COND|replace (i <? n) with true by lia; reflexivity| |exact BL].
         eapply bsE_seq; [eapply bsE_seq; [eapply bsE_if; [exact SB|reflexivity|exact C3]|unlt; eapply bsE_if; [evs; reflexivity|reflexivity|apply bsE_skip]]|].
         unlt. eapply bsE_expr. evs. unfold incr. chk7. evs. reflexivity.
       * right. exists st, i', a1', k', s', m', j. split; [exact Hneg|]. split; [exists (x1 ++ x3); rewrite Hm', Hm1, app_assoc; reflexivity|].
+        split; [intros Hk0; destruct (CST1 Hk0) as (Q1 & Q2); rewrite <- Q1; change (SBDF_OK =? SBDF_OK) with true; cbv iota; specialize (Q2 eq_refl); rewrite Q2 in RS; exact (RS Hk0)|].
         rewrite <- app_assoc in BL. cbn [app] in BL. fold n1 in BL.
         unfold ts_loop in *. cbn [fbody prog_sbdf_ts_read] in *.
         eapply bsE_while_t; [apply COND|replace (i <? n) with true by lia; reflexivity| |exact BL].
@@ -397,14 +408,14 @@ Proof.
         { revert CK. unfold ckS. unlt. intros CK. eapply bsE_call; [reflexivity|evs; reflexivity|reflexivity|exact CK|evs; reflexivity]. }
         assert (C1 : cols_sem m (S (S L)) (hs ++ [VInt 0]) blocks) by (apply cols_snoc_skip; [exact C|reflexivity]).
         destruct (IH (i + 1) (hs ++ [VInt 0]) blocks a1 k s1 m ltac:(lia) ltac:(lia) ltac:(rewrite zlen_app; change (zlen [VInt 0]) with 1; lia) C1 Hs1 NBC Fl)
-          as [(hs' & blocks' & a1' & k' & s' & m' & BL & Pf & R1 & R2 & R3)|(st & i' & a1' & k' & s' & m' & j & Hneg & Pf & BL)].
-        -- left. exists hs', blocks', a1', k', s', m'. split; [|split; [exact Pf|split; [exact R1|split; [exact R2|exact R3]]]].
+          as [(hs' & blocks' & a1' & k' & s' & m' & BL & Pf & R1 & R2 & R3 & R4)|(st & i' & a1' & k' & s' & m' & j & Hneg & Pf & RS & BL)].
+        -- left. exists hs', blocks', a1', k', s', m'. split; [|split; [exact Pf|split; [exact R1|split; [exact R2|split; [exact R3|exact R4]]]]].
            rewrite <- app_assoc in BL. cbn [app] in BL. fold n1 in BL. change (VInt 0 :: zeros n1) with (zeros (S n1)) in BL. fold cc0 in BL.
            unfold ts_loop in *. cbn [fbody prog_sbdf_ts_read] in *.
            eapply bsE_while_t; [apply COND|replace (i <? n) with true by lia; reflexivity| |exact BL].
            eapply bsE_seq; [eapply bsE_seq; [eapply bsE_if; [exact SB|reflexivity|exact K3]|unlt; eapply bsE_if; [evs; reflexivity|reflexivity|apply bsE_skip]]|].
            unlt. eapply bsE_expr. evs. unfold incr. chk7. evs. reflexivity.
-        -- right. exists st, i', a1', k', s', m', j. split; [exact Hneg|]. split; [exact Pf|].
+        -- right. exists st, i', a1', k', s', m', j. split; [exact Hneg|]. split; [exact Pf|]. split; [exact RS|].
            rewrite <- app_assoc in BL. cbn [app] in BL. fold n1 in BL. change (VInt 0 :: zeros n1) with (zeros (S n1)) in BL. fold cc0 in BL.
            unfold ts_loop in *. cbn [fbody prog_sbdf_ts_read] in *.
            eapply bsE_while_t; [apply COND|replace (i <? n) with true by lia; reflexivity| |exact BL].
@@ -419,7 +430,7 @@ Proof.
                       ltac:(rewrite zlen_zeros; unfold a; lia) ltac:(unfold int_max; lia) (ZN _)) as D.
         replace (hs ++ zeros (S a) ++ zeros b) with cc0 in D by (unfold cc0; rewrite <- Zs; do 2 f_equal; lia).
         rewrite !app_nil_r in D. fold tsl in D. unfold fr in D. cbn [app] in D.
-        exists st1, i, a1, k, s1, m, (2 + List.length blocks)%nat. split; [exact Hneg1|]. split; [exists []; now rewrite app_nil_r|].
+        exists st1, i, a1, k, s1, m, (2 + List.length blocks)%nat. split; [exact Hneg1|]. split; [exists []; now rewrite app_nil_r|]. split; [intros _; reflexivity|].
         replace (h ++ nones (2 + List.length blocks)) with (h ++ None :: None :: nones (List.length blocks)) by reflexivity.
         unfold ts_loop. cbn [fbody prog_sbdf_ts_read].
         eapply bsE_while_ret; [apply COND|replace (i <? n) with true by lia; reflexivity|].
@@ -428,6 +439,18 @@ Proof.
         eapply bsE_seq; [eapply bsE_call_void; [reflexivity|evs; reflexivity|reflexivity|evs; exact D|evs; reflexivity]|].
         eapply bsE_return. evs. reflexivity.
 Qed.
+
+(* the status of the whole call when no allocation fails *)
+Definition ts_st (sx : list Z) : Z :=
+  match sec_read sx with
+  | Err e => e
+  | Ok (x, s1) =>
+    if x =? 5 then SBDF_TABLEEND else if negb (x =? 3) then SBDF_ERROR_UNEXPECTED_SECTION_ID else
+    match read_int32 false s1 with
+    | Err e => e
+    | Ok (cnt, s2) => if cnt <? 0 then SBDF_ERROR_INVALID_SIZE else if negb (cnt =? n) then SBDF_ERROR_COLUMN_COUNT_MISMATCH else colsf_st (Z.to_nat n) 0 s2
+    end
+  end.
 
 Definition trl0 : trl := Build_trl VUndef VUndef VUndef VUndef VUndef VUndef VUndef so.
 
@@ -450,9 +473,10 @@ Lemma ts_read_bs k sx m : Forall byte sx -> flags_in m ->
     ((st = SBDF_OK /\ t_so l' = VCell L 0 /\
         (exists hs blocks, h' = HT (hs ++ zeros (Z.to_nat (cap - n))) blocks /\ zlen hs = n /\ cols_sem m' (S (S L)) hs blocks) /\
         exists s1 s2, sec_read sx = Ok (3, s1) /\ read_int32 false s1 = Ok (n, s2) /\ colsf_end (Z.to_nat n) 0 s2 = Some s')
-     \/ (st < 0 /\ t_so l' = so /\ exists j, h' = h ++ nones j)).
+     \/ (st < 0 /\ t_so l' = so /\ exists j, h' = h ++ nones j)) /\
+    (k < 0 -> st = ts_st sx).
 Proof.
-  intros Hs Fl NBC. unfold ts_frame_status.
+  intros Hs Fl NBC. unfold ts_frame_status, ts_st.
   assert (Hc1 : n <= cap) by (apply cap_loop_enough; lia).
   pose proof (sec_read_bs2 bv o fv (VPtr ROut 0) VUndef VUndef VUndef VUndef k sx h m I I Hs) as SR.
   (* the declarations and the argument check *)
@@ -467,7 +491,7 @@ Proof.
   2: { (* no section marker *)
     destruct SR as (e' & v' & r' & s' & SR).
     assert (Hneg : st0 < 0) by (destruct (sec_read_err sx st0 ESR) as [-> | ->]; reflexivity).
-    exists st0. eexists (Build_trl _ _ _ _ _ _ _ _). do 4 eexists. split; [|split; [exists []; now rewrite app_nil_r|split; [reflexivity|right; split; [exact Hneg|split; [reflexivity|exists 0%nat; cbn; now rewrite app_nil_r]]]]].
+    exists st0. eexists (Build_trl _ _ _ _ _ _ _ _). do 4 eexists. split; [|split; [exists []; now rewrite app_nil_r|split; [reflexivity|split; [right; split; [exact Hneg|split; [reflexivity|exists 0%nat; cbn; now rewrite app_nil_r]]|intros _; reflexivity]]]].
     cbn [fbody prog_sbdf_ts_read]. apply HEAD. untr.
     eapply bsE_seq_ret. eapply bsE_seq; [eapply bsE_call; [reflexivity|evs; reflexivity|reflexivity|exact SR|unfold sr2, fr; evs; reflexivity]|].
     eapply bsE_if; [evs; reflexivity|cbn [truth]; replace (st0 =? 0) with false by lia; reflexivity|]. eapply bsE_return. evs. reflexivity. }
@@ -483,12 +507,12 @@ Proof.
     eapply bsE_seq; [|exact B]. eapply bsE_seq; [eapply bsE_call; [reflexivity|evs; reflexivity|reflexivity|exact SR|unfold sr2, fr; evs; reflexivity]|eapply bsE_if; [evs; reflexivity|reflexivity|apply bsE_skip]]. }
   destruct (x =? 5) eqn:E5.
   { (* the end of the table *)
-    exists (-1000). eexists (Build_trl _ _ _ _ _ _ _ _). do 4 eexists. split; [|split; [exists []; now rewrite app_nil_r|split; [try reflexivity; exact I|right; split; [reflexivity|split; [reflexivity|exists 0%nat; cbn; now rewrite app_nil_r]]]]].
+    exists (-1000). eexists (Build_trl _ _ _ _ _ _ _ _). do 4 eexists. split; [|split; [exists []; now rewrite app_nil_r|split; [try reflexivity; exact I|split; [right; split; [reflexivity|split; [reflexivity|exists 0%nat; cbn; now rewrite app_nil_r]]|first [intros _; reflexivity|intros X; lia]]]]].
     cbn [fbody prog_sbdf_ts_read]. apply HEAD. apply HEAD2. untr.
     eapply bsE_seq_ret. eapply bsE_if; [evs; chk7; evs; rewrite E5; reflexivity|reflexivity|]. eapply bsE_return. evs. chk7. reflexivity. }
   destruct (x =? 3) eqn:E3.
   2: { (* some other section *)
-    exists SBDF_ERROR_UNEXPECTED_SECTION_ID. eexists (Build_trl _ _ _ _ _ _ _ _). do 4 eexists. split; [|split; [exists []; now rewrite app_nil_r|split; [try reflexivity; exact I|right; split; [reflexivity|split; [reflexivity|exists 0%nat; cbn; now rewrite app_nil_r]]]]].
+    exists SBDF_ERROR_UNEXPECTED_SECTION_ID. eexists (Build_trl _ _ _ _ _ _ _ _). do 4 eexists. split; [|split; [exists []; now rewrite app_nil_r|split; [try reflexivity; exact I|split; [right; split; [reflexivity|split; [reflexivity|exists 0%nat; cbn; now rewrite app_nil_r]]|first [intros _; reflexivity|intros X; lia]]]]].
     cbn [fbody prog_sbdf_ts_read]. apply HEAD. apply HEAD2. untr.
     eapply bsE_seq_ret. eapply bsE_if; [evs; chk7; evs; rewrite E5; reflexivity|reflexivity|].
     eapply bsE_if; [evs; chk7; evs; rewrite E3; reflexivity|reflexivity|]. eapply bsE_return. evs. chk7. reflexivity. }
@@ -502,7 +526,7 @@ Proof.
   destruct (read_int32 false s1) as [[cnt s2]|e] eqn:ER.
   2: { (* the column count cannot be read *)
     destruct RI as (c' & s' & RI). pose proof (read_int32_err s1 e ER). subst e.
-    exists SBDF_ERROR_IO. eexists (Build_trl _ _ _ _ _ _ _ _). do 4 eexists. split; [|split; [exists []; now rewrite app_nil_r|split; [try reflexivity; exact I|right; split; [reflexivity|split; [reflexivity|exists 0%nat; cbn; now rewrite app_nil_r]]]]].
+    exists SBDF_ERROR_IO. eexists (Build_trl _ _ _ _ _ _ _ _). do 4 eexists. split; [|split; [exists []; now rewrite app_nil_r|split; [try reflexivity; exact I|split; [right; split; [reflexivity|split; [reflexivity|exists 0%nat; cbn; now rewrite app_nil_r]]|first [intros _; reflexivity|intros X; lia]]]]].
     cbn [fbody prog_sbdf_ts_read]. apply HEAD. apply HEAD2. apply HEAD3. untr.
     eapply bsE_seq_ret. eapply bsE_seq; [eapply bsE_call; [reflexivity|evs; reflexivity|reflexivity|exact RI|unfold ri2; evs; reflexivity]|].
     eapply bsE_if; [evs; reflexivity|reflexivity|]. eapply bsE_return. evs. reflexivity. }
@@ -513,12 +537,12 @@ Proof.
   { intros X oo B. revert B. untr. intros B.
     eapply bsE_seq; [|exact B]. eapply bsE_seq; [eapply bsE_call; [reflexivity|evs; reflexivity|reflexivity|exact RI|unfold ri2; evs; reflexivity]|eapply bsE_if; [evs; reflexivity|reflexivity|apply bsE_skip]]. }
   destruct (cnt <? 0) eqn:Eneg.
-  { exists SBDF_ERROR_INVALID_SIZE. eexists (Build_trl _ _ _ _ _ _ _ _). do 4 eexists. split; [|split; [exists []; now rewrite app_nil_r|split; [try reflexivity; exact I|right; split; [reflexivity|split; [reflexivity|exists 0%nat; cbn; now rewrite app_nil_r]]]]].
+  { exists SBDF_ERROR_INVALID_SIZE. eexists (Build_trl _ _ _ _ _ _ _ _). do 4 eexists. split; [|split; [exists []; now rewrite app_nil_r|split; [try reflexivity; exact I|split; [right; split; [reflexivity|split; [reflexivity|exists 0%nat; cbn; now rewrite app_nil_r]]|first [intros _; reflexivity|intros X; lia]]]]].
     cbn [fbody prog_sbdf_ts_read]. apply HEAD. apply HEAD2. apply HEAD3. apply HEAD4. untr.
     eapply bsE_seq_ret. eapply bsE_if; [evs; chk7; evs; rewrite Eneg; reflexivity|reflexivity|]. eapply bsE_return. evs. chk7. reflexivity. }
   destruct (cnt =? n) eqn:Ecn.
   2: { (* not the number of columns of the table *)
-    exists SBDF_ERROR_COLUMN_COUNT_MISMATCH. eexists (Build_trl _ _ _ _ _ _ _ _). do 4 eexists. split; [|split; [exists []; now rewrite app_nil_r|split; [try reflexivity; exact I|right; split; [reflexivity|split; [reflexivity|exists 0%nat; cbn; now rewrite app_nil_r]]]]].
+    exists SBDF_ERROR_COLUMN_COUNT_MISMATCH. eexists (Build_trl _ _ _ _ _ _ _ _). do 4 eexists. split; [|split; [exists []; now rewrite app_nil_r|split; [try reflexivity; exact I|split; [right; split; [reflexivity|split; [reflexivity|exists 0%nat; cbn; now rewrite app_nil_r]]|first [intros _; reflexivity|intros X; lia]]]]].
     cbn [fbody prog_sbdf_ts_read]. apply HEAD. apply HEAD2. apply HEAD3. apply HEAD4. untr.
     eapply bsE_seq; [eapply bsE_if; [evs; chk7; evs; rewrite Eneg; reflexivity|reflexivity|apply bsE_skip]|].
     eapply bsE_seq_ret. eapply bsE_if; [evs; chk7; evs; replace (0 + 1) with 1 by lia; rewrite Htm; evs; rewrite Ecn; reflexivity|reflexivity|]. eapply bsE_return. evs. chk7. reflexivity. }
@@ -532,7 +556,7 @@ Proof.
     eapply bsE_seq; [eapply bsE_if; [evs; chk7; evs; replace (0 + 1) with 1 by lia; rewrite Htm; evs; rewrite Ecn; reflexivity|reflexivity|apply bsE_skip]|]. exact B. }
   destruct (k =? 0) eqn:Ek0.
   { (* the struct cannot be allocated *)
-    exists SBDF_ERROR_OUT_OF_MEMORY. eexists (Build_trl _ _ _ _ _ _ _ _). do 4 eexists. split; [|split; [exists []; now rewrite app_nil_r|split; [try reflexivity; exact I|right; split; [reflexivity|split; [reflexivity|exists 0%nat; cbn; now rewrite app_nil_r]]]]].
+    exists SBDF_ERROR_OUT_OF_MEMORY. eexists (Build_trl _ _ _ _ _ _ _ _). do 4 eexists. split; [|split; [exists []; now rewrite app_nil_r|split; [try reflexivity; exact I|split; [right; split; [reflexivity|split; [reflexivity|exists 0%nat; cbn; now rewrite app_nil_r]]|first [intros _; reflexivity|intros X; lia]]]]].
     cbn [fbody prog_sbdf_ts_read]. apply HEAD. apply HEAD2. apply HEAD3. apply HEAD4. apply HEAD5. untr.
     eapply bsE_seq; [eapply bsE_expr; evs; chk7; evs; rewrite Ek0; evs; reflexivity|].
     eapply bsE_seq_ret. eapply bsE_if; [evs; reflexivity|reflexivity|]. eapply bsE_return. evs. chk7. reflexivity. }
@@ -552,7 +576,7 @@ Proof.
   assert (G0 : forall (b : list val) (r : heap) j, 0 <= j -> cell_get (h ++ Some b :: r) L j = nth_error b (Z.to_nat j)) by (intros; apply cell_get_at; [reflexivity|assumption]).
   destruct (k1 =? 0) eqn:Ek1.
   { (* the columns array cannot be allocated: the struct is released again *)
-    exists SBDF_ERROR_OUT_OF_MEMORY. eexists (Build_trl _ _ _ _ _ _ _ _). do 4 eexists. split; [|split; [exists []; now rewrite app_nil_r|split; [exact I|right; split; [reflexivity|split; [reflexivity|exists 1%nat; reflexivity]]]]].
+    exists SBDF_ERROR_OUT_OF_MEMORY. eexists (Build_trl _ _ _ _ _ _ _ _). do 4 eexists. split; [|split; [exists []; now rewrite app_nil_r|split; [exact I|split; [right; split; [reflexivity|split; [reflexivity|exists 1%nat; reflexivity]]|intros X; unfold k1, dec in Ek1; destruct (0 <? k) eqn:E0; lia]]]].
     cbn [fbody prog_sbdf_ts_read]. apply HEAD. apply HEAD2. apply HEAD3. apply HEAD4. apply HEAD5. apply ALLOC. untr.
     eapply bsE_seq; [eapply bsE_expr; evs; chk7; evs; replace (0 <=? cap) with true by lia; evs; rewrite Ek1; evs; chk7; evs; replace (0 <=? cap) with true by lia; evs; change (0 + 2) with 2;
                      rewrite (cell_set_at h blk0 [] L 2 VNull [VInt 0; VInt 0; VNull; VInt 0] eq_refl ltac:(lia) eq_refl); evs; reflexivity|].
@@ -574,9 +598,9 @@ Proof.
     eapply bsE_expr. evs. chk7. unfold HT, zeros. reflexivity. }
   specialize (NBC s1 s2 eq_refl ER).
   destruct (ts_loop_bs (Z.to_nat n) 0 [] [] VUndef k2 s2 m ltac:(lia) ltac:(lia) eq_refl (cols_nil _ _) Hs2 NBC Fl)
-    as [(hs' & blocks' & a1' & k' & s' & m' & BL & Pf & R1 & R2 & R3)|(st & i' & a1' & k' & s' & m' & j & Hneg & Pf & BL)].
+    as [(hs' & blocks' & a1' & k' & s' & m' & BL & Pf & R1 & R2 & R3 & R4)|(st & i' & a1' & k' & s' & m' & j & Hneg & Pf & RS & BL)].
   - (* every column was read *)
-    exists SBDF_OK. eexists (Build_trl _ _ _ _ _ _ _ _). do 4 eexists. split; [|split; [exact Pf|split; [exact I|left]]].
+    exists SBDF_OK. eexists (Build_trl _ _ _ _ _ _ _ _). do 4 eexists. split; [|split; [exact Pf|split; [exact I|split; [left|intros X; symmetry; apply R4; unfold k2, k1, dec; destruct (0 <? k) eqn:E0; [lia|]; rewrite E0; exact X]]]].
     + cbn [fbody prog_sbdf_ts_read]. apply HEAD. apply HEAD2. apply HEAD3. apply HEAD4. apply HEAD5. apply ALLOC.
       cbn [app] in BL. replace (Z.to_nat (cap - 0)) with (Z.to_nat cap) in BL by lia.
       unfold ts_loop in BL. cbn [fbody prog_sbdf_ts_read] in BL.
@@ -585,7 +609,7 @@ Proof.
     + split; [reflexivity|]. split; [reflexivity|]. split; [exists hs', blocks'; split; [reflexivity|split; [exact R1|exact R2]]|].
       exists s1, s2. split; [reflexivity|]. split; [exact ER|exact R3].
   - (* a column could not be read *)
-    exists st. eexists (Build_trl _ _ _ _ _ _ _ _). do 4 eexists. split; [|split; [exact Pf|split; [exact I|right; split; [exact Hneg|split; [reflexivity|exists j; reflexivity]]]]].
+    exists st. eexists (Build_trl _ _ _ _ _ _ _ _). do 4 eexists. split; [|split; [exact Pf|split; [exact I|split; [right; split; [exact Hneg|split; [reflexivity|exists j; reflexivity]]|intros X; apply RS; unfold k2, k1, dec; destruct (0 <? k) eqn:E0; [lia|]; rewrite E0; exact X]]]].
     cbn [fbody prog_sbdf_ts_read]. apply HEAD. apply HEAD2. apply HEAD3. apply HEAD4. apply HEAD5. apply ALLOC.
     cbn [app] in BL. replace (Z.to_nat (cap - 0)) with (Z.to_nat cap) in BL by lia.
     unfold ts_loop in BL. cbn [fbody prog_sbdf_ts_read] in BL.
@@ -606,11 +630,13 @@ Theorem ts_read_sub_source rf rp fo po k sx m (h : heap) tmb n sub : Forall byte
           forall k' s', exists f1, forall g, (f1 <= g)%nat -> exists fin2,
             callC prog_env g prog_sbdf_ts_destroy [VCell (List.length h) 0] (inb fin) k' s' (h ++ hnew) = ONormal fin2 /\
             inb fin2 = inb fin /\ lookup cells_var (vars fin2) = Some (VHeap (h ++ nones (List.length hnew))))
-     \/ (st < 0 /\ lookup "*out" (vars fin) = Some VUndef /\ exists j, lookup cells_var (vars fin) = Some (VHeap (h ++ nones j)))).
+     \/ (st < 0 /\ lookup "*out" (vars fin) = Some VUndef /\ exists j, lookup cells_var (vars fin) = Some (VHeap (h ++ nones j)))) /\
+    (* without allocation failures: the status of the framing, then of the first column that cannot be read / skipped *)
+    (k < 0 -> st = ts_st n sub sx).
 Proof.
   intros Hs Hn Htm Fl NBC.
-  destruct (ts_read_bs (VInt 0) [] rf rp fo po VUndef h tmb n sub Hn Htm k sx m Hs Fl NBC) as (st & l' & k' & s' & h' & m' & B & Pf & FS & Out).
-  destruct (bsE_sound _ _ _ _ B) as (f0 & F). exists f0. intros f Hf. exists st. eexists. split; [apply F; exact Hf|]. split; [exact Pf|]. split; [exact FS|].
+  destruct (ts_read_bs (VInt 0) [] rf rp fo po VUndef h tmb n sub Hn Htm k sx m Hs Fl NBC) as (st & l' & k' & s' & h' & m' & B & Pf & FS & Out & TST).
+  destruct (bsE_sound _ _ _ _ B) as (f0 & F). exists f0. intros f Hf. exists st. eexists. split; [apply F; exact Hf|]. split; [exact Pf|]. split; [exact FS|]. split; [|exact TST].
   destruct l' as [q1 q2 q3 q4 q5 q6 q7 q8]. cbn [t_so] in Out.
   destruct Out as [(-> & -> & (hs & blocks & -> & Hz & C) & s1 & s2 & E1 & E2 & E3)|(Hneg & -> & j & ->)].
   - left. split; [reflexivity|]. split; [reflexivity|]. split; [exists s1, s2, s'; repeat split; assumption|].
@@ -645,7 +671,7 @@ Theorem ts_read_source rf rp fo po k sx m (h : heap) tmb n : Forall byte sx -> 0
 Proof.
   intros Hs Hn Htm NBC.
   destruct (ts_read_sub_source rf rp fo po k sx m h tmb n None Hs Hn Htm I (fun s1 s2 A B => colsf_nobit_none _ _ _ (NBC s1 s2 A B))) as (f0 & F).
-  exists f0. intros f Hf. destruct (F f Hf) as (st & fin & C & Pf & FS & Out). exists st, fin. split; [exact C|]. split; [exact Pf|]. split; [exact FS|].
+  exists f0. intros f Hf. destruct (F f Hf) as (st & fin & C & Pf & FS & Out & _). exists st, fin. split; [exact C|]. split; [exact Pf|]. split; [exact FS|].
   destruct Out as [(E & Ho & (s1 & s2 & s' & A1 & A2 & A3 & A4) & R)|R]; [left|right; exact R].
   split; [exact E|]. split; [exact Ho|]. split; [|exact R]. exists s1, s2, s'. rewrite colsf_end_none in A3. repeat split; assumption.
 Qed.
@@ -870,4 +896,90 @@ Proof.
   intros Hk Hs (NB & NBP). destruct (cs_read_full_source rf rp fo po k sx m h Hs NB NBP) as (f0 & F). exists f0. intros f Hf.
   destruct (F f Hf) as (st & fin & C & _ & _ & CST). exists st, fin. split; [exact C|]. rewrite (CST Hk).
   exact (cs_st_model sx Hs).
+Qed.
+
+(* ================================================================== ts_st is the status of the L1 model's ts_read *)
+Lemma neg_read_string : neg (read_string false None).
+Proof.
+  unfold read_string. apply neg_bind; [apply neg_read_int32|]. intros l. destruct (l <? 0); [apply neg_fail; reflexivity|]. destruct (l =? INT_MAX); [apply neg_fail; reflexivity|].
+  apply neg_bind; [intros s st; unfold ralloc, alloc_ok; discriminate|intros _; apply neg_fread_bytes].
+Qed.
+Lemma neg_va_read : neg (Va.va_read false None).
+Proof.
+  unfold Va.va_read. apply neg_bind; [apply neg_read_int8|]. intros e. apply neg_bind; [unfold vt_read; apply neg_read_int8|]. intros vt.
+  destruct (e =? SBDF_PLAINARRAYENCODINGTYPEID); [apply neg_bind; [apply neg_obj_read_arr|intros; apply neg_ret]|].
+  destruct (e =? SBDF_RUNLENGTHENCODINGTYPEID).
+  { apply neg_bind; [apply neg_read_int32|]. intros v. destruct (v <? 0); [apply neg_fail; reflexivity|].
+    apply neg_bind; [apply neg_obj_read_arr|]. intros ob1. apply neg_bind; [apply neg_obj_read_arr|intros; apply neg_ret]. }
+  destruct (e =? SBDF_BITARRAYENCODINGTYPEID); [|apply neg_fail; reflexivity].
+  apply neg_bind; [apply neg_read_int32|]. intros v. destruct (v <? 0); [apply neg_fail; reflexivity|].
+  apply neg_bind; [intros s st; unfold ralloc, alloc_ok; discriminate|]. intros u. apply neg_bind; [apply neg_fread_bytes|intros; apply neg_ret].
+Qed.
+Lemma neg_read_prop : neg (read_prop false None).
+Proof. unfold read_prop. apply neg_bind; [apply neg_read_string|]. intros nm. apply neg_bind; [apply neg_va_read|intros; apply neg_ret]. Qed.
+Lemma shr_read_prop : shr (read_prop false None).
+Proof. unfold read_prop. apply shr_bind; [apply shr1_shr, shr1_read_string|]. intros nm. apply shr_bind; [apply shr1_shr, shr1_va_read|intros; apply shr_ret]. Qed.
+Lemma neg_cs_read : neg (Slice.cs_read false None).
+Proof.
+  unfold Slice.cs_read. apply neg_bind; [apply neg_sec_expect|intros u]. apply neg_bind; [apply neg_va_read|intros va]. apply neg_bind; [apply neg_read_int32|intros v].
+  destruct (v <? 0); [apply neg_fail; reflexivity|]. destruct (INT_MAX / 16 <? v); [apply neg_fail; reflexivity|].
+  apply neg_bind; [intros s st; unfold ralloc, alloc_ok; discriminate|intros u2]. apply neg_bind; [apply neg_rrepeat, neg_read_prop|intros; apply neg_ret].
+Qed.
+Lemma shr_cs_read : shr (Slice.cs_read false None).
+Proof.
+  unfold Slice.cs_read. apply shr_bind; [apply shr_sec_expect|intros u]. apply shr_bind; [apply shr1_shr, shr1_va_read|intros va]. apply shr_bind; [apply shr1_shr, shr1_read_int32|intros v].
+  destruct (v <? 0); [apply shr_fail|]. destruct (INT_MAX / 16 <? v); [apply shr_fail|].
+  apply shr_bind; [apply shr_ralloc|intros u2]. apply shr_bind; [apply shr_rrepeat, shr_read_prop|intros; apply shr_ret].
+Qed.
+
+Definition msub (sub : option (Z * list Z)) (i : Z) : option (list Z) := match sub with None => None | Some (_, fl) => Some (skipn (Z.to_nat i) fl) end.
+Lemma hd_skipn (l : list Z) : forall k, hd 0 (skipn k l) = nth k l 0.
+Proof. induction l as [|x l IH]; intros [|k]; cbn [skipn hd nth]; try reflexivity. apply IH. Qed.
+Lemma tl_skipn (l : list Z) : forall k, tl (skipn k l) = skipn (S k) l.
+Proof. induction l as [|x l IH]; intros [|k]; cbn [skipn tl]; try reflexivity. apply IH. Qed.
+
+Lemma colsf_st_model sub : forall rem i s, 0 <= i -> Forall byte s ->
+  match read_cols false None rem (msub sub i) s with Ok _ => colsf_st sub rem i s = SBDF_OK | Err e => colsf_st sub rem i s = e end.
+Proof.
+  induction rem as [|r IH]; intros i s Hi Hs; cbn [read_cols colsf_st]; [reflexivity|].
+  assert (SEL : (match msub sub i with None => true | Some l => negb (hd 0 l =? 0) end) = sel sub i) by (unfold msub, sel; destruct sub as [[q fl]|]; [rewrite hd_skipn; reflexivity|reflexivity]).
+  assert (NXT : option_map (@tl Z) (msub sub i) = msub sub (i + 1)) by (unfold msub; destruct sub as [[q fl]|]; [cbn [option_map]; rewrite tl_skipn; do 2 f_equal; lia|reflexivity]).
+  rewrite SEL, NXT. unfold rd_bind, rret. destruct (sel sub i).
+  - pose proof (cs_st_model s Hs) as CM.
+    destruct (Slice.cs_read false None s) as [[c s1]|e] eqn:EC.
+    + rewrite CM. change (SBDF_OK =? SBDF_OK) with true. cbv iota. rewrite (cs_end_of_model s c s1 EC).
+      specialize (IH (i + 1) s1 ltac:(lia) (proj1 (shr_cs_read s c s1 Hs EC))).
+      destruct (read_cols false None r (msub sub (i + 1)) s1) as [[rest s2]|e2]; exact IH.
+    + rewrite CM. pose proof (neg_cs_read s e EC) as Ne. replace (e =? SBDF_OK) with false by (unfold SBDF_OK; lia). reflexivity.
+  - destruct (cs_skip false s) as [[u s1]|e] eqn:EK; [|reflexivity].
+    specialize (IH (i + 1) s1 ltac:(lia) (proj1 (shr_cs_skip s u s1 Hs EK))).
+    destruct (read_cols false None r (msub sub (i + 1)) s1) as [[rest s2]|e2]; exact IH.
+Qed.
+
+Theorem ts_st_model n sub sx : Forall byte sx -> 0 <= n ->
+  match Slice.ts_read false None n (msub sub 0) sx with Ok _ => ts_st n sub sx = SBDF_OK | Err e => ts_st n sub sx = e end.
+Proof.
+  intros Hs Hn. unfold Slice.ts_read, ts_st, rd_bind, rfail, rret, ralloc, alloc_ok.
+  destruct (sec_read sx) as [[x s1]|e0] eqn:E0; [|reflexivity].
+  assert (Hs1 : Forall byte s1).
+  { assert (SE : sec_expect x sx = Ok (tt, s1)) by (unfold sec_expect, rd_bind, rret; rewrite E0, Z.eqb_refl; reflexivity). exact (proj1 (shr_sec_expect x sx tt s1 Hs SE)). }
+  change SBDF_TABLEEND_SECTIONID with 5. change SBDF_TABLESLICE_SECTIONID with 3.
+  destruct (x =? 5); [reflexivity|]. destruct (negb (x =? 3)); [reflexivity|].
+  destruct (read_int32 false s1) as [[cc s2]|e1] eqn:E1; [|reflexivity].
+  pose proof (proj1 (shr1_read_int32 s1 cc s2 Hs1 E1)) as Hs2.
+  destruct (cc <? 0); [reflexivity|]. destruct (cc =? n) eqn:Ec; cbn [negb]; [|reflexivity].
+  assert (cc = n) by lia. subst cc.
+  pose proof (colsf_st_model sub (Z.to_nat n) 0 s2 ltac:(lia) Hs2) as CM.
+  destruct (read_cols false None (Z.to_nat n) (msub sub 0) s2) as [[cols s3]|e2]; exact CM.
+Qed.
+
+(* the source's sbdf_ts_read returns the status of the L1 model's ts_read whenever no allocation fails - for any column subset *)
+Theorem ts_read_status_is_the_models rf rp fo po k sx m (h : heap) tmb n sub : k < 0 -> Forall byte sx -> 0 <= n <= 715827882 -> cell_get h tmb 1 = Some (VInt n) -> flags_in n sub m ->
+  (forall s1 s2, sec_read sx = Ok (3, s1) -> read_int32 false s1 = Ok (n, s2) -> colsf_nobit sub (Z.to_nat n) 0 s2) ->
+  exists f0, forall f, (f0 <= f)%nat -> exists st fin,
+    callC prog_env f prog_sbdf_ts_read [VPtr rf fo; VCell tmb 0; sv sub; VPtr rp po] m k sx h = OReturn (VInt st) fin /\
+    match Slice.ts_read false None n (msub sub 0) sx with Ok _ => st = SBDF_OK | Err e => st = e end.
+Proof.
+  intros Hk Hs Hn Htm Fl NBC. destruct (ts_read_sub_source rf rp fo po k sx m h tmb n sub Hs Hn Htm Fl NBC) as (f0 & F). exists f0. intros f Hf.
+  destruct (F f Hf) as (st & fin & C & _ & _ & _ & TST). exists st, fin. split; [exact C|]. rewrite (TST Hk). apply ts_st_model; [exact Hs|lia].
 Qed.
